@@ -1,4 +1,4 @@
-HOOK_COMMITS = []
+HOOK_COMMITS = ["3ac02a7"]
 NOTES = ("Every check: translator -> coqc (Properties_<id>.v, Print Assumptions, grep gate) -> harness rebuilt from /repo's working tree "
          "-> model (extracted OCaml) vs implementation -> property oracle -> known_findings.json protocol. See DESIGN.md.")
 # per-property entries live in tools/manifest.d/<id>.py (one check(...) call each)
